@@ -586,6 +586,13 @@ func (g *G) boolExpr(d int) *Node {
 	switch g.n("bk", 10) {
 	case 0, 1, 2:
 		op := g.pick("cmp", []string{"<", "<=", ">", ">=", "==", "!="})
+		if g.p.Floats && g.pct("neighbours", 5) {
+			// two integers next to each other where float64 no longer tells them apart:
+			// integer comparison is exact over the whole 64-bit range
+			base := []int64{9007199254740992, -9007199254740992, 4611686018427387904, 9223372036854775806, 36028797018963968}[g.n("nbase", 5)]
+			g.event("adjacent-large-integers")
+			return Bin(op, Int(base+int64(g.n("nd1", 3))-1), Int(base+int64(g.n("nd2", 3))-1))
+		}
 		l, _ := g.numOperand(d-1, true)
 		r, _ := g.numOperand(d-1, true)
 		return Bin(op, l, r)
